@@ -597,9 +597,9 @@ def cumprod(x, axis=None, out=None, out_like=None, sizing='optimal', method='raw
         x = Fxp(x)
 
     signed = x.signed
-    n_word = x.size * x.n_word
     n_frac = x.size * x.n_frac
-    n_int = n_word - int(signed) - n_frac
+    n_int = max(x.size * x.n_word - int(signed) - n_frac, x.n_int)   # first elements keep their own integer length
+    n_word = int(signed) + n_int + n_frac
     optimal_size = (signed, n_word, n_int, n_frac)
 
     kwargs['axis'] = axis
